@@ -45,6 +45,7 @@ OUTSIDE = ["symbolic links (excluded by the property) and any real filesystem: o
            "Windows path rules"]
 ASSUMPTIONS = ["posixpath.normpath/abspath/join replaced by CPython's pure-Python algorithms (see C26; compared "
                "with os.path on a corpus on every run)",
+               "repr() of a symbolic str is a constant under the solver (only used in exception messages)",
                "inductive step assumes the working directory invariant (every segment non-empty, not '.'/'..', no "
                "'/' or NUL); the same harness shows toSegments re-establishes it, and [] satisfies it"]
 EXPLANATION = ("real toSegments + shell._path on a symbolic working directory and path argument; real FTP command "
